@@ -139,6 +139,42 @@ def constrained_cases():
     out.append(('SEQUENCE { a INTEGER (0..10), b OCTET STRING (SIZE 2..4) OPTIONAL }', seq,
                 [('3003020105', True), ('300302010b', False), ('30070201050402 6162'.replace(' ', ''), True),
                  ('3006020105040161', False), ('300a0201050405 6162636465'.replace(' ', ''), False)]))
+    # string types under SIZE constraints in every wire form: primitive, constructed definite, constructed indefinite, nested
+    from pyasn1.type import tag as _tag, char as _char
+
+    def T(tag_, *parts):          # definite form
+        c = b''.join(parts)
+        assert len(c) < 128
+        return bytes([tag_, len(c)]) + c
+
+    def X(tag_, *parts):          # indefinite form
+        return bytes([tag_, 0x80]) + b''.join(parts) + b'\x00\x00'
+    H = bytes.fromhex
+    b1, b9, b8 = T(3, H('0780')), T(3, H('07b380')), T(3, H('00b3'))       # 1 bit, 9 bits, 8 bits
+    bs = univ.BitString().subtype(subtypeSpec=constraint.ValueSizeConstraint(1, 8))
+    out.append(('BIT STRING (SIZE (1..8))', bs, [(x.hex(), a, 'not-der' if (x[0] & 0x20) else '') for x, a in [
+        (b1, True), (b9, False), (b8, True), (T(0x23, b1), True), (T(0x23, b9), False), (X(0x23, b1), True), (X(0x23, b9), False),
+        (X(0x23, b8, b1), False), (X(0x23, X(0x23, b9)), False), (X(0x23, X(0x23, b8)), True), (T(3, H('00')), False)]]))
+    bs2 = univ.BitString().subtype(implicitTag=_tag.Tag(_tag.tagClassContext, _tag.tagFormatSimple, 2),
+                                   subtypeSpec=constraint.ValueSizeConstraint(4, 12))
+    n4, n3, n8 = T(3, H('04a0')), T(3, H('05a0')), T(3, H('00ff'))           # 4 bits, 3 bits, 8 bits
+    out.append(('[2] IMPLICIT BIT STRING (SIZE (4..12))', bs2, [(x.hex(), a, 'not-der' if (x[0] & 0x20) else '') for x, a in [
+        (T(0x82, H('04a0')), True), (T(0x82, H('05a0')), False), (X(0xa2, n4), True), (X(0xa2, n3), False),
+        (X(0xa2, n8, n8), False), (T(0xa2, n4), True), (X(0xa2, n8, T(3, H('04f0'))), True)]]))
+    os_ = univ.OctetString().subtype(subtypeSpec=constraint.ValueSizeConstraint(2, 4))
+    o = lambda t_: T(4, t_)  # noqa
+    out.append(('OCTET STRING (SIZE (2..4))', os_, [(x.hex(), a, 'not-der' if (x[0] & 0x20) else '') for x, a in [
+        (o(b'ab'), True), (o(b'a'), False), (o(b'abcde'), False), (X(0x24, o(b'a'), o(b'b')), True), (X(0x24, o(b'a')), False),
+        (X(0x24, o(b'abc'), o(b'de')), False), (T(0x24, o(b'a'), o(b'b')), True), (X(0x24, X(0x24, o(b'a')), o(b'bcd')), True),
+        (X(0x24, X(0x24, o(b'a')), o(b'bcde')), False)]]))
+    u8 = _char.UTF8String().subtype(subtypeSpec=constraint.ValueSizeConstraint(1, 2))
+    out.append(('UTF8String (SIZE (1..2))', u8, [(x.hex(), a, 'not-der' if (x[0] & 0x20) else '') for x, a in [
+        (T(0x0c, b'a'), True), (T(0x0c, b'abc'), False), (X(0x2c, o(b'a'), o(b'b')), True), (X(0x2c, o(b'ab'), o(b'c')), False),
+        (T(0x0c), False)]]))
+    rec_bs = univ.Sequence(componentType=namedtype.NamedTypes(namedtype.NamedType('flags', bs), namedtype.NamedType('n', rng_int)))
+    five = T(2, b'\x05')
+    out.append(('SEQUENCE { flags BIT STRING (SIZE (1..8)), n INTEGER (0..10) }', rec_bs, [(T(0x30, b1, five).hex(), True), (X(0x30, X(0x23, b9), five).hex(), False), (X(0x30, X(0x23, b1), five).hex(), True),
+        (T(0x30, T(0x23, b9), five).hex(), False, 'not-der'), (T(0x30, T(0x23, b1), five).hex(), True, 'not-der')]))
     nested = univ.SequenceOf(componentType=so)
     out.append(('SEQUENCE OF SEQUENCE (SIZE 1..2) OF INTEGER', nested, [('30023000', False), ('30053003020101', True)]))
     # constraints of the record itself (WITH COMPONENTS): definite and indefinite forms alike
@@ -260,11 +296,14 @@ def _check_constrained(rep, hist):
         apply_history(schema, hist)
         if hist:
             name = '%s after %s' % (name, hist)
-        for hx, admitted in items:
+        for item in items:
+            hx, admitted = item[0], item[1]
             data = bytes.fromhex(hx)
             for cdc in ('ber', 'cer', 'der'):
                 if cdc == 'der' and data[1:2] == b'\x80':
                     continue
+                if cdc == 'der' and len(item) > 2 and item[2] == 'not-der':
+                    continue        # a constructed string: DER forbids the form itself (C15), whatever the constraints say
                 try:
                     obj, rest = codec.DEC[cdc].decode(data, asn1Spec=schema)
                     ok = True
